@@ -806,6 +806,33 @@ func PCmp(op token.Token, x, y VM) Pred {
 			return false, false
 		}
 		bop := b.Op
+		// unsigned x: x != 0 is x > 0, x == 0 is x <= 0
+		if bop == token.NEQ || bop == token.EQL {
+			isU := func(t types.Type) bool {
+				bt, ok := t.Underlying().(*types.Basic)
+				return ok && bt.Info()&types.IsUnsigned != 0
+			}
+			isZero := func(v ssa.Value) bool {
+				c, ok := Strip(v).(*ssa.Const)
+				if !ok || c.Value == nil || c.Value.Kind() != constant.Int {
+					return false
+				}
+				z, ok := constant.Int64Val(c.Value)
+				return ok && z == 0
+			}
+			if isU(b.X.Type()) && (op == token.GTR || op == token.LEQ || op == token.LSS || op == token.GEQ) {
+				switch {
+				case isZero(b.Y) && bop == token.NEQ:
+					bop = token.GTR
+				case isZero(b.Y) && bop == token.EQL:
+					bop = token.LEQ
+				case isZero(b.X) && bop == token.NEQ:
+					bop = token.LSS
+				case isZero(b.X) && bop == token.EQL:
+					bop = token.GEQ
+				}
+			}
+		}
 		var okm bool
 		if (x(b.X) || x(Strip(b.X))) && (y(b.Y) || y(Strip(b.Y))) {
 			okm = true
